@@ -38,6 +38,7 @@ CONSTANTS
   MaxPauses,      \* bound on operator pause / unpause rounds
   MaxRestarts,    \* bound on operator RestartStage requests
   MaxRegions,     \* bound on CancelRegion requests
+  SplitSweep,     \* TRUE: a recovery sweep may run CONCURRENTLY with the handlers (read / look up / push as separate steps)
   TrustNegative   \* dedup_trust_negative_cache: a negative answer of an authoritative filter skips the durable check
 
 VARIABLES
@@ -230,8 +231,9 @@ LabelN(n)  == lbl' = [name |-> n, mid |-> wk.mid, c |-> FALSE]   \* a step witho
 StageRow0 == [status |-> "NOT_STARTED", ver |-> 0, started |-> FALSE, fired |-> FALSE, cb |-> {},
               act |-> {"-"}, bypass |-> FALSE, jumps |-> 0, buf |-> <<>>, sig |-> ""]   \* buf: names of buffered signals, sig: _signal_name
 TaskRow0  == [status |-> "NOT_STARTED", ver |-> 0, prog |-> 0, seen |-> {}]   \* seen: signal names a suspending task has counted
+SwIdle    == [phase |-> "idle", rows |-> [wf |-> [status |-> "", canceled |-> FALSE], st |-> <<>>, tk |-> <<>>], msgs |-> <<>>]
 Cnt0      == [crashes |-> 0, withheld |-> 0, sweeps |-> 0, cancels |-> 0, signals |-> 0, early |-> 0,
-              pauses |-> 0, unpauses |-> 0, restarts |-> 0, regions |-> 0, needSweep |-> FALSE]
+              pauses |-> 0, unpauses |-> 0, restarts |-> 0, regions |-> 0, needSweep |-> FALSE, sw |-> SwIdle]
 
 Init ==
   /\ wf = [status |-> "NOT_STARTED", canceled |-> FALSE]
@@ -979,7 +981,7 @@ TimePasses(m) ==
 CrashWhen(allowIdle) ==   \* process kill: volatile state is lost, locks stay; a fresh worker recovers first
   /\ cnt.crashes < MaxCrashes /\ (allowIdle \/ ~Idle)
   /\ wk' = [pc |-> "idle", mid |-> NoMsg, out |-> "", sib |-> <<>>, kids |-> <<>>, seen |-> done, auth |-> TRUE]   \* fresh filter, hydrated at start
-  /\ cnt' = [cnt EXCEPT !.crashes = @ + 1, !.needSweep = TRUE]
+  /\ cnt' = [cnt EXCEPT !.crashes = @ + 1, !.needSweep = TRUE, !.sw = SwIdle]     \* the sweeping thread dies with the process
   /\ lbl' = [name |-> "Crash", mid |-> wk.mid, c |-> FALSE]
   /\ UNCHANGED <<durable, ledger, gh>>
 
@@ -991,43 +993,71 @@ BloomReset ==   \* forced rotation of the in-memory filter without re-hydration:
   /\ lbl' = [name |-> "BloomReset", mid |-> NoMsg, c |-> FALSE]
   /\ UNCHANGED <<durable, ledger, gh, cnt>>
 
-(* recovery.py:_recover_workflow *)
-PendingFor(t) == \E m \in q : m.t = t
-HasStarted(s) == st[s].started
-CanStart(s) ==
+(* recovery.py:_recover_workflow.  The sweep reads the workflow with its stages and tasks (store.retrieve), then looks
+   up the queue for messages of the tasks it is about to re-queue (has_pending_message_for_task), then pushes what it
+   decided in ONE transaction.  The decision is a function of the rows it READ (R) and of the queue as it is when the
+   look-ups run (Q) - written that way so that a sweep running concurrently with the handlers can be expressed. *)
+Rows == [wf |-> wf, st |-> st, tk |-> tk]
+PendingIn(Q, t) == \E m \in Q : m.t = t
+CanStartOn(R, s) ==
   IF Upstream(s) = {} THEN TRUE
-  ELSE IF JoinTracked(s) /\ st[s].fired THEN FALSE
+  ELSE IF JoinTracked(s) /\ R.st[s].fired THEN FALSE
   ELSE IF P.join[s] = "N_OF_M"
        THEN P.thr[s] <= Cardinality(Upstream(s))
-            /\ Cardinality({u \in Upstream(s) : st[u].status \in Continuable}) >= P.thr[s]
-       ELSE \A u \in Upstream(s) : st[u].status \in Continuable
-BeforeKidsPending(s) ==    \* the last before-child to complete starts the first task (ContinueParentStage)
-  \E k \in DOMAIN st : P.parent[k] = s /\ P.owner[k] = "BEFORE" /\ st[k].status \notin Complete
-RecFor(s) ==
-  IF st[s].status = "RUNNING"
-  THEN LET R == SelectSeq(LiveTasks(s), LAMBDA t : tk[t].status = "RUNNING")
-           N == SelectSeq(LiveTasks(s), LAMBDA t : tk[t].status = "NOT_STARTED")
-       IN IF R # <<>> THEN Map(RunTaskM, SelectSeq(R, LAMBDA t : ~PendingFor(t)))
-          ELSE IF N # <<>> /\ st[s].started
-               THEN (IF BeforeKidsPending(s) \/ PendingFor(N[1]) THEN <<>> ELSE <<StartTaskM(N[1])>>)
+            /\ Cardinality({u \in Upstream(s) : R.st[u].status \in Continuable}) >= P.thr[s]
+       ELSE \A u \in Upstream(s) : R.st[u].status \in Continuable
+BeforeKidsPendingOn(R, s) ==    \* the last before-child to complete starts the first task (ContinueParentStage)
+  \E k \in DOMAIN R.st : P.parent[k] = s /\ P.owner[k] = "BEFORE" /\ R.st[k].status \notin Complete
+RecForOn(R, Q, s) ==
+  IF R.st[s].status = "RUNNING"
+  THEN LET L  == SelectSeq(P.tasks[s], LAMBDA t : t \in DOMAIN R.tk)
+           RR == SelectSeq(L, LAMBDA t : R.tk[t].status = "RUNNING")
+           N  == SelectSeq(L, LAMBDA t : R.tk[t].status = "NOT_STARTED")
+       IN IF RR # <<>> THEN Map(RunTaskM, SelectSeq(RR, LAMBDA t : ~PendingIn(Q, t)))
+          ELSE IF N # <<>> /\ R.st[s].started
+               THEN (IF BeforeKidsPendingOn(R, s) \/ PendingIn(Q, N[1]) THEN <<>> ELSE <<StartTaskM(N[1])>>)
           ELSE <<StartStageM(s)>>
-  ELSE IF st[s].status = "NOT_STARTED" /\ (HasStarted(s) \/ CanStart(s)) THEN <<StartStageM(s)>>
+  ELSE IF R.st[s].status = "NOT_STARTED" /\ (R.st[s].started \/ CanStartOn(R, s)) THEN <<StartStageM(s)>>
   ELSE <<>>
 RECURSIVE Flatten(_)
 Flatten(ss) == IF ss = <<>> THEN <<>> ELSE Head(ss) \o Flatten(Tail(ss))
-ExistingInOrder == SelectSeq(P.stages, LAMBDA s : s \in DOMAIN st)
-RecMsgs ==
-  IF wf.status \notin {"RUNNING", "NOT_STARTED"} THEN <<>>
-  ELSE LET need == {s \in DOMAIN st : st[s].status = "RUNNING"
-                                       \/ (st[s].status = "NOT_STARTED" /\ (HasStarted(s) \/ CanStart(s)))}
+RecMsgsOn(R, Q) ==
+  IF R.wf.status \notin {"RUNNING", "NOT_STARTED"} THEN <<>>
+  ELSE LET need == {s \in DOMAIN R.st : R.st[s].status = "RUNNING"
+                                         \/ (R.st[s].status = "NOT_STARTED" /\ (R.st[s].started \/ CanStartOn(R, s)))}
+           ex   == SelectSeq(P.stages, LAMBDA s : s \in DOMAIN R.st)
        IN IF need = {}
-          THEN (IF wf.status = "NOT_STARTED" THEN <<StartWorkflowM>> ELSE <<>>)
-          ELSE Flatten(Map(RecFor, ExistingInOrder))
-Sweep ==
-  /\ Idle /\ (cnt.needSweep \/ cnt.sweeps < MaxSweeps)
+          THEN (IF R.wf.status = "NOT_STARTED" THEN <<StartWorkflowM>> ELSE <<>>)
+          ELSE Flatten([i \in DOMAIN ex |-> RecForOn(R, Q, ex[i])])
+PendingFor(t) == PendingIn(q, t)
+HasStarted(s) == st[s].started
+CanStart(s)   == CanStartOn(Rows, s)
+RecMsgs       == RecMsgsOn(Rows, q)
+Sweep ==        \* the whole sweep while nothing else runs
+  /\ Idle /\ cnt.sw.phase = "idle" /\ (cnt.needSweep \/ cnt.sweeps < MaxSweeps)
   /\ Commit(RecMsgs, FALSE)
   /\ cnt' = [cnt EXCEPT !.needSweep = FALSE, !.sweeps = IF cnt.needSweep THEN @ ELSE @ + 1]
   /\ lbl' = [name |-> "Sweep", mid |-> NoMsg, c |-> TRUE]
+  /\ UNCHANGED <<wf, st, tk, dlq, claims, wk, ledger, gh>>
+
+(* The sweep CONCURRENT with the handlers (C10: "a sweep running concurrently with a handler"): its three phases as
+   separate steps - read the rows, look up the queue, push - with handler steps in between.  cnt.sw is the sweeping
+   thread's local state (it dies with the process). *)
+SweepSnap ==
+  /\ SplitSweep /\ EnvOK /\ cnt.sw.phase = "idle" /\ ~cnt.needSweep /\ cnt.sweeps < MaxSweeps
+  /\ cnt' = [cnt EXCEPT !.sweeps = @ + 1, !.sw = [phase |-> "look", rows |-> Rows, msgs |-> <<>>]]
+  /\ lbl' = [name |-> "SweepSnap", mid |-> NoMsg, c |-> FALSE]
+  /\ UNCHANGED <<durable, wk, ledger, gh>>
+SweepLook ==
+  /\ EnvOK /\ cnt.sw.phase = "look"
+  /\ cnt' = [cnt EXCEPT !.sw.phase = "push", !.sw.msgs = RecMsgsOn(cnt.sw.rows, q)]
+  /\ lbl' = [name |-> "SweepLook", mid |-> NoMsg, c |-> FALSE]
+  /\ UNCHANGED <<durable, wk, ledger, gh>>
+SweepPush ==
+  /\ EnvOK /\ cnt.sw.phase = "push"
+  /\ Commit(cnt.sw.msgs, FALSE)
+  /\ cnt' = [cnt EXCEPT !.sw = SwIdle]
+  /\ lbl' = [name |-> "SweepPush", mid |-> NoMsg, c |-> TRUE]
   /\ UNCHANGED <<wf, st, tk, dlq, claims, wk, ledger, gh>>
 
 DLQSweep ==   \* queue/sqlite/dlq.py:check_and_move_expired
@@ -1097,7 +1127,7 @@ EarlyStart(s) ==    \* a StartStage for an arbitrary stage at an arbitrary momen
 
 Environment ==
   \/ \E m \in q : LockExpire(m) \/ TimePasses(m)
-  \/ Crash \/ Sweep \/ DLQSweep \/ SendCancel \/ ClaimSweep
+  \/ Crash \/ Sweep \/ SweepSnap \/ SweepLook \/ SweepPush \/ DLQSweep \/ SendCancel \/ ClaimSweep
   \/ \E s \in Stages : EarlyStart(s)
   \/ \E s \in SignalTargets, pers \in BOOLEAN : SendSignal(s, pers)
   \/ PauseWorkflow \/ Unpause \/ (\E s \in TopLevel : SendRestart(s))
@@ -1109,5 +1139,5 @@ Next == Processor \/ Handlers \/ Environment
 Spec == Init /\ [][Next]_vars
 
 -----------------------------------------------------------------------------
-Quiescent == q = {} /\ Idle /\ ~cnt.needSweep
+Quiescent == q = {} /\ Idle /\ ~cnt.needSweep /\ cnt.sw.phase = "idle"
 =============================================================================
